@@ -251,7 +251,7 @@ class Cmp(object):
             if str(got) != G.comp_text(comps[0]):
                 self.bad(field + ".str", str(got), G.comp_text(comps[0]))
             return
-        collapsed = rational and den == 1
+        collapsed = rational and den == 1 and not bounded
         self.o.cls("duration-additive")
         if collapsed:
             self.o.cls("pre-0.3-integer-sum-written-as-one-number")
@@ -473,6 +473,8 @@ def upgrade_spec(spec):
                     return "timesig-list"
                 out["value"] = dict(value, others=[])
             elif attr == "tempoIndication":
+                if not value:
+                    return "empty-list"
                 out["value"] = None  # text of the joined list not prescribed
             else:
                 if not value:
@@ -583,6 +585,10 @@ def oracle_line(spec):
             if up == "no-equivalent" and "MatchError" in e.kind:
                 o.cls("to_v1-no-equivalent-rejected")
                 return o
+            if up == "empty-list":
+                # an empty list value has no 1.0.0 spelling (the value pattern needs one character)
+                o.excluded.append("to_v1 content not judged: empty-list")
+                return o
             o.add("to-v1-raised", exc=e.text, where=e.kind)
             return o
         if up == "no-equivalent":
@@ -662,9 +668,13 @@ def known_tempo_indication(spec, d):
 
 
 # ----------------------------------------------------------------------------- text variants (second direction)
+# kinds that have an accepted non-canonical spelling
+VARIANT_KINDS = G.SCORE_NOTE_KINDS + G.PERFORMED_NOTE_KINDS + ["sustain", "soft", "section", "section", "info", "meta", "meta"]
+
+
 @st.composite
 def strat_variants(draw, tier="quick"):
-    base = draw(G.line_spec(tier))
+    base = draw(G.line_spec(tier, kinds=VARIANT_KINDS))
     return {"base": base, "seed": draw(st.lists(st.integers(0, 7), min_size=12, max_size=12))}
 
 
@@ -752,6 +762,46 @@ def variant_text(spec, seed):
     return G.line_text(spec), applied
 
 
+def oracle_triple_alteration(o, base, flat):
+    """The readers accept ### and bbb (SIGN_TO_ALTER): the line must survive like any other."""
+    o.cls("variant:triple-alteration")
+    o.nontrivial = True
+    v = tuple(base["v"])
+    s = dict(base["snote"], alter=0)
+    canon = G.line_text(dict(base, snote=s))
+    step_txt = s["step"].lower() if v <= G.V030 else s["step"].upper()
+    head = "snote(%s,[%s,n]," % (s["anchor"], step_txt)
+    assert canon.startswith(head)
+    sign, alter = ("bbb", -3) if flat else ("###", 3)
+    text0 = "snote(%s,[%s,%s]," % (s["anchor"], step_txt, sign) + canon[len(head):]
+    try:
+        o1 = parse_any(text0, base)
+    except SutRaised as e:
+        o.add("triple-alteration-parse-raised", text=text0, exc=e.text)
+        return o
+    if o1 is None:
+        o.add("triple-alteration-not-parsed", text=text0)
+        return o
+    sn = o1 if base["kind"] == "snote" else o1.snote
+    if sn.Modifier != alter:
+        o.add("triple-alteration-misread", text=text0, got=repr(sn.Modifier))
+    try:
+        text1 = call(lambda: o1.matchline)
+    except SutRaised as e:
+        o.add("triple-alteration-unwritable", text=text0, exc=e.text, where=e.kind)
+        return o
+    o2 = parse_any(text1, base)
+    if o2 is None or call(lambda: o2.matchline) != text1:
+        o.add("triple-alteration-not-fixpoint", first=text1)
+    elif (o2 if base["kind"] == "snote" else o2.snote).Modifier != alter:
+        o.add("triple-alteration-lost", first=text0, second=text1)
+    return o
+
+
+def known_triple_alteration(spec, d):
+    return d.kind == "triple-alteration-unwritable" and "KeyError" in d["detail"].get("exc", "")
+
+
 def oracle_variant(spec):
     base = spec["base"]
     o = Outcome()
@@ -759,6 +809,8 @@ def oracle_variant(spec):
     if kind == "section" and not all(G.on_grid(x, 4) for x in base["times"]):
         o.excluded.append("section variant with off-grid times")
         return o
+    if spec["seed"][11] == 7 and base.get("snote") is not None and base["snote"]["step"] != "R":
+        return oracle_triple_alteration(o, base, spec["seed"][10] % 2)
     text0, applied = variant_text(base, spec["seed"])
     canon = G.line_text(base)
     for a in applied:
@@ -1143,7 +1195,7 @@ def _cells(kinds):
 
 
 def _line_sub(name, kinds, quick, thorough, floors):
-    fl = dict((c, 0.01) for c in _cells(kinds))
+    fl = dict((c, 0.004) for c in _cells(kinds))
     fl.update(floors)
     return SubCheck(
         name,
@@ -1172,8 +1224,9 @@ SUBCHECKS = [
             "v1-key-name-read-by-old-pattern": known_variant_v1_key,
             "empty-list-parsed-as-empty-string": known_variant_empty_list,
             "v1-tempo-indication-parsed-as-list": known_variant_tempo,
+            "triple-alteration-unwritable": known_triple_alteration,
         },
-        floors={"variant:accidental-synonym": 0.05, "variant:note-name-case": 0.1},
+        floors={"variant:accidental-synonym": 0.05, "variant:note-name-case": 0.1, "variant:triple-alteration": 0.01},
     ),
     SubCheck(
         "durations",
